@@ -262,8 +262,8 @@ class PriorityLock(Lock, BasePriorityObject, LockHelper):
             def key(
                 entry: Tuple[FutureBool, ReferenceTypeTaskAny],
             ) -> bool:
-                fut, _ = entry
-                return fut is from_obj
+                _, weak_task = entry
+                return weak_task() is from_obj
 
             if self._waiters:  # pragma: no branch
                 self._waiters.reschedule(key, priority)
